@@ -241,6 +241,14 @@ def run(repo, R):
             d = ast.unparse(e.func)
             if isinstance(e.func, ast.Attribute) and e.func.attr.startswith("construct_array_"):
                 return ("arr", False)
+            if isinstance(e.func, ast.Name) and e.func.id.startswith("_"):
+                g_ = repo.resolve_name(w.module, e.func.id, w)
+                if hasattr(g_, "node") and g_.module is w.module:
+                    body_calls = [n2 for n2 in ast.walk(g_.node) if isinstance(n2, ast.Call)]
+                    asm = [n2 for n2 in body_calls if isinstance(n2.func, ast.Attribute) and n2.func.attr.startswith("construct_array_")]
+                    perm = [n2 for n2 in body_calls if ast.unparse(n2.func).split(".")[-1] in ("transpose", "swapaxes", "moveaxis", "einsum")]
+                    if asm and not perm:
+                        return ("arr", False)  # a helper that only dispatches to the assembly
             args = list(e.args)
             base = None
             if d in ("np.transpose", "numpy.transpose") and len(args) == 2:
